@@ -67,6 +67,36 @@ def commute(t):
     return t
 
 
+def negspell(t):
+    """the unary-minus spellings:  a - b  ->  a + -(b);   (-k) * e  ->  -(k * e);   e * (-k)  ->  -(e * k)"""
+    if not isinstance(t, dict):
+        return t
+    t = copy.deepcopy(t)
+    for k in ("a", "b"):
+        if k in t:
+            t[k] = negspell(t[k])
+    if "args" in t:
+        t["args"] = [negspell(a) for a in t["args"]]
+    if t.get("op") == "sub":
+        return {"op": "add", "a": t["a"], "b": {"op": "neg", "a": t["b"]}}
+    if t.get("op") == "mul":
+        for x, y in (("a", "b"), ("b", "a")):
+            if t[x]["op"] == "num" and t[x]["n"] * t[x]["d"] < 0:
+                pos = {"op": "num", "n": -t[x]["n"], "d": t[x]["d"]}
+                inner = t[y] if (pos["n"] == pos["d"]) else dict(t, **{x: pos})
+                return {"op": "neg", "a": inner}
+    return t
+
+
+def map_case(case, f):
+    c = copy.deepcopy(case)
+    c["obj"] = f(c["obj"])
+    for k in c["cons"]:
+        k["lhs"] = f(k["lhs"])
+        k["rhs"] = f(k["rhs"])
+    return c
+
+
 def commute_case(case):
     c = copy.deepcopy(case)
     c["obj"] = commute(c["obj"])
@@ -78,8 +108,10 @@ def commute_case(case):
 
 def twins(case, i):
     a = render.model_text(case, plain)
-    style = i % 3
-    if style == 0:
+    style = i % 4
+    if style == 3:
+        b = render.model_text(map_case(case, negspell), plain)
+    elif style == 0:
         b = render.model_text(case, arith)
     elif style == 1:
         nm = Named()
@@ -87,7 +119,57 @@ def twins(case, i):
         b = render.model_text(case, nm, consts=nm.consts) if nm.consts else body
     else:
         b = render.model_text(commute_case(case), arith)
-    return {"id": f"T{case['id']}", "a": a, "b": b, "style": ["arith", "named", "commute+arith"][style]}
+    return {"id": f"T{case['id']}", "a": a, "b": b, "style": ["arith", "named", "commute+arith", "unary minus"][style]}
+
+
+def _b(n):
+    return {"inf": 0, "n": n, "d": 1}
+
+
+TREE_DOM = [{"name": "x", "kind": "real", "lo": _b(-4), "hi": _b(4)}, {"name": "y", "kind": "real", "lo": _b(-3), "hi": _b(5)},
+            {"name": "p", "kind": "bool", "lo": _b(0), "hi": _b(1)}]
+
+
+def _uses(t, acc):
+    if t["op"] == "var":
+        acc.add(t["name"])
+    for k in ("a", "b"):
+        if k in t:
+            _uses(t[k], acc)
+    for a in t.get("args", []):
+        _uses(a, acc)
+
+
+def tree_models(trees, seed):
+    """One small model around each numeric ExprGen tree (as a row or as the objective): the shapes
+    corpus K lacks, e.g. a unary minus over a sum with a constant, a constant on the left of a division."""
+    num = lambda n: {"op": "num", "n": n, "d": 1}
+    out = []
+    for i, c in enumerate(trees):
+        t = c["tree"]
+        used = set()
+        _uses(t, used)
+        if not used or "q" in used:
+            continue
+        mode = (i + seed) % 4
+        xy = {"lhs": {"op": "add", "a": {"op": "var", "name": "x"}, "b": {"op": "var", "name": "y"}}, "cmp": "le", "rhs": num(3), "assert": False, "name": ""}
+        if mode == 0:
+            m = {"sense": "sat", "obj": num(0), "cons": [{"lhs": t, "cmp": "le", "rhs": num(1), "assert": False, "name": ""}]}
+        elif mode == 1:
+            m = {"sense": "sat", "obj": num(0), "cons": [{"lhs": num(-1), "cmp": "le", "rhs": t, "assert": False, "name": ""}]}
+        elif mode == 2:
+            m = {"sense": "min", "obj": t, "cons": [xy]}
+        else:
+            m = {"sense": "max", "obj": {"op": "var", "name": "x"}, "cons": [{"lhs": t, "cmp": "ge", "rhs": num(2), "assert": False, "name": ""}, xy]}
+        names = set(used)
+        for k in m["cons"]:
+            _uses(k["lhs"], names)
+            _uses(k["rhs"], names)
+        _uses(m["obj"], names)
+        m["dom"] = [copy.deepcopy(d) for d in TREE_DOM if d["name"] in names]
+        m["id"] = f"X{c['id']}"
+        out.append(m)
+    return out
 
 
 # ---- check -------------------------------------------------------------------
@@ -104,7 +186,7 @@ def check(tier, seed, replay=None):
         else:
             pairs = [{"id": c["id"].split("/")[0], "a": c["texta"], "b": c["textb"]}]
     else:
-        for fam, nquick in (("d1", 1200), ("d2num", 1800), ("d2log", 2400), ("zero", 2500)):
+        for fam, nquick in (("d1", 1200), ("d2num", 1800), ("d2log", 2400), ("zero", 2500), ("negsum", 700)):
             cs, g, d = core.gen_cases(SPEC_DIR, "ExprGen.tla", f"Gen_{fam}.cfg", "ex" + fam, workers=8)
             for i, c in enumerate(cs):
                 c["id"] = f"{fam}_{i}"
@@ -118,7 +200,14 @@ def check(tier, seed, replay=None):
         for f, m in kmeta.items():
             meta["twins:" + f] = m
         kcases = [c for c in kcases if c.get("fam") != "E"]
-        pairs = [twins(c, i + seed) for i, c in enumerate(kcases)]
+        nt = 400 if tier == "quick" else 12000
+        numeric = [c for c in tcases if c["id"].startswith(("d1_", "d2num_"))]
+        k = max(1, len(numeric) // nt)
+        negs = [c for c in tcases if c["id"].startswith("negsum_")]
+        kn = max(1, len(negs) // (300 if tier == "quick" else 5000))
+        xcases = tree_models(numeric[(seed * 7) % k::k] + negs[seed % kn::kn], seed)
+        meta["twins:trees"] = {"cases": len(xcases)}
+        pairs = [twins(c, i + seed) for i, c in enumerate(kcases + xcases)]
     # part 1
     tevents = core.rv_parallel("rewrite", tcases, prop + "-t", procs=8) if tcases else []
     vt = core.validate(SPEC_DIR, "RewriteTrace.tla", "RewriteTrace.cfg", tevents, prop, prop + "-t", chunks=12)
@@ -160,7 +249,7 @@ def check(tier, seed, replay=None):
         "distinct_nontrivial": changed + both_ok,
         "rule": "part 1: trees from spec/rewrite/ExprGen.tla (all of depth <= 1; depth 2 = operator over a depth-1 tree and a leaf), rewritten by the real"
                 " simplify/flatten, compared by value at all assignments ({-2,-1,0,1,2,1/2} numeric, {0,1} Boolean), idempotence, kept denominators;"
-                " part 2: corpus-K models rendered in two spellings (arith constants, named constants, commuted coefficients) through the text front end,"
+                " part 2: corpus-K models rendered in two spellings (arith constants, named constants, commuted coefficients, unary-minus spellings of subtraction and negative scales) through the text front end,"
                 " both judged against the first spelling's source model (C01/C02 predicates) and for equal acceptance."
                 " non-trivial = tree actually changed by simplify, or twin pair where both spellings compiled",
         "exhaustive": tier == "thorough" and not replay,
